@@ -29,10 +29,14 @@ func init() {
 			"both keys derive from all their documented components; sharing is dominated by the query-only eligibility tests; every wait on a shared record can also leave through the participant's own context; " +
 			"and (context provenance) whether a follower can return the leader's cancellation verbatim. It does not decide byte equality of what participants receive.",
 		Mutants: []Mutant{
+			{Name: "subgraph leader no longer records whether its own context had ended (reverts part of the F54 fix)", File: "v2/pkg/engine/resolve/loader.go", Rule: "C11-R10", Key: "subgraph/Loader.loadByContext/leader-records-its-context-state",
+				Old: "\t\titem.leaderGone = ctx.Err() != nil\n", New: ""},
+			{Name: "inbound follower returns the shared error without asking whether the leader was gone (reverts part of the F54 fix)", File: "v2/pkg/engine/resolve/inbound_request_singleflight.go", Rule: "C11-R10", Key: "inbound/InboundRequestSingleFlight.GetOrCreate/follower-returns-shared-error-only-after-testing-the-record",
+				Old: "if leaderCancelled(ctx.ctx, request.Err) || (request.leaderGone && ctx.ctx.Err() == nil) {", New: "if leaderCancelled(ctx.ctx, request.Err) {"},
 			{Name: "leader publishes a re-formatted error (seeded change C11-22)", File: "v2/pkg/engine/resolve/loader.go", Rule: "C11-R9", Key: "Loader.loadByContext/shared-error-keeps-chain",
-				Old: "\tif err != nil {\n\t\titem.err = err\n\t\treturn err\n\t}\n", New: "\tif err != nil {\n\t\titem.err = fmt.Errorf(\"shared subgraph request failed: %v\", err)\n\t\treturn err\n\t}\n"},
+				Old: "\t\titem.err = err\n\t\t// the leader's own context ended", New: "\t\titem.err = fmt.Errorf(\"shared subgraph request failed: %v\", err)\n\t\t// the leader's own context ended"},
 			{Name: "FinishErr skips the wake-up when no follower is counted (seeded change C11-12)", File: "v2/pkg/engine/resolve/inbound_request_singleflight.go", Rule: "C11-R2", Key: "InboundRequestSingleFlight.FinishErr/every-exit-wakes-waiters",
-				Old: "\tshard.m.Delete(req.ID)\n\treq.Err = err\n\tclose(req.Done)", New: "\tshard.m.Delete(req.ID)\n\tif !req.HasFollowers() {\n\t\treturn\n\t}\n\treq.Err = err\n\tclose(req.Done)"},
+				Old: "\tshard.m.Delete(req.ID)\n\treq.Err = err\n", New: "\tshard.m.Delete(req.ID)\n\tif !req.HasFollowers() {\n\t\treturn\n\t}\n\treq.Err = err\n"},
 			{Name: "leader's client write error shared with the followers (seeded change C11-11)", File: resolveGo, Rule: "C11-R8", Key: "ArenaResolveGraphQLResponse/finish-err-not-from-client-write",
 				Old: "\tresp.ResponseWriteDuration = time.Since(responseWriteStart)\n\t// Extract data from the leader's context", New: "\tresp.ResponseWriteDuration = time.Since(responseWriteStart)\n\tif err != nil {\n\t\tr.inboundRequestSingleFlight.FinishErr(inflight, err)\n\t\tr.responseBufferPool.Release(responseArena)\n\t\treturn resp, err\n\t}\n\t// Extract data from the leader's context"},
 			{Name: "failed subgraph loads stay in the in-flight table (seeded change C07-13)", File: "v2/pkg/engine/resolve/subgraph_request_singleflight.go", Rule: "C11-R2", Key: "SubgraphRequestSingleFlight.Finish/removed-before-close",
@@ -43,12 +47,12 @@ func init() {
 			{Name: "FinishOk also called on the write-error path (double finish)", File: resolveGo, Rule: "C11-R1", Key: "ArenaResolveGraphQLResponse",
 				Old: "\tr.inboundRequestSingleFlight.FinishOk(inflight, buf.Bytes())\n", New: "\tif err != nil {\n\t\tr.inboundRequestSingleFlight.FinishErr(inflight, err)\n\t}\n\tr.inboundRequestSingleFlight.FinishOk(inflight, buf.Bytes())\n"},
 			{Name: "subgraph leader finishes explicitly only on success (defer removed)", File: loaderGo, Rule: "C11-R1", Key: "loadByContext",
-				Old: "\tdefer l.singleFlight.Finish(item)\n\n\t// Perform the actual load\n\terr := l.loadByContextDirect(ctx, source, headers, input, res)\n\tif err != nil {\n\t\titem.err = err\n\t\treturn err\n\t}\n",
-				New: "\t// Perform the actual load\n\terr := l.loadByContextDirect(ctx, source, headers, input, res)\n\tif err != nil {\n\t\titem.err = err\n\t\treturn err\n\t}\n\tdefer l.singleFlight.Finish(item)\n"},
+				Old: "\tdefer l.singleFlight.Finish(item)\n\n\t// Perform the actual load\n\terr := l.loadByContextDirect(ctx, source, headers, input, res)\n\tif err != nil {\n\t\titem.err = err\n\t\t// the leader's own context ended (its client went away, or its deadline passed):\n\t\t// the error is the leader's, the followers load on their own\n\t\titem.leaderGone = ctx.Err() != nil\n\t\treturn err\n\t}\n",
+				New: "\t// Perform the actual load\n\terr := l.loadByContextDirect(ctx, source, headers, input, res)\n\tif err != nil {\n\t\titem.err = err\n\t\t// the leader's own context ended (its client went away, or its deadline passed):\n\t\t// the error is the leader's, the followers load on their own\n\t\titem.leaderGone = ctx.Err() != nil\n\t\treturn err\n\t}\n\tdefer l.singleFlight.Finish(item)\n"},
 			{Name: "follower registered outside the shard critical section", File: inboundGo, Rule: "C11-R2", Key: "GetOrCreate",
 				Old: "\t\trequest.AddFollower()\n\t}\n\tshard.mu.Unlock()\n\tif shared {\n", New: "\t}\n\tshard.mu.Unlock()\n\tif shared {\n\t\trequest.AddFollower()\n"},
 			{Name: "FinishErr closes Done before storing the error", File: inboundGo, Rule: "C11-R2", Key: "FinishErr",
-				Old: "\treq.Err = err\n\tclose(req.Done)", New: "\tclose(req.Done)\n\treq.Err = err"},
+				Old: "\treq.Err = err\n\treq.leaderGone = req.leaderCtx != nil && req.leaderCtx.Err() != nil\n\tclose(req.Done)", New: "\treq.leaderGone = req.leaderCtx != nil && req.leaderCtx.Err() != nil\n\tclose(req.Done)\n\treq.Err = err"},
 			{Name: "variables hash dropped from the inbound key", File: inboundGo, Rule: "C11-R4", Key: "VariablesHash",
 				Old: "binary.LittleEndian.PutUint64(b[8:16], ctx.VariablesHash)", New: "binary.LittleEndian.PutUint64(b[8:16], 0)"},
 			{Name: "headers hash dropped from the subgraph single-flight key", File: subgraphGo, Rule: "C11-R4", Key: "extraKey",
@@ -58,7 +62,7 @@ func init() {
 			{Name: "follower waits for the leader without watching its own context", File: loaderGo, Rule: "C11-R6", Key: "loadByContext",
 				Old: "\t\tselect {\n\t\tcase <-item.loaded:\n\t\tcase <-ctx.Done():\n\t\t\treturn ctx.Err()\n\t\t}\n", New: "\t\t<-item.loaded\n"},
 			{Name: "subgraph follower returns the leader's cancellation verbatim", File: loaderGo, Rule: "C11-R7", Key: "loadByContext",
-				Old: "\t\t\tif leaderCancelled(ctx, item.err) {", New: "\t\t\tif false && leaderCancelled(ctx, item.err) {"},
+				Old: "\t\t\tif leaderCancelled(ctx, item.err) || (item.leaderGone && ctx.Err() == nil) {", New: "\t\t\tif false && (leaderCancelled(ctx, item.err) || (item.leaderGone && ctx.Err() == nil)) {"},
 			{Name: "follower patches the shared response in place", File: loaderGo, Rule: "C11-R3", Key: "shared-buffer",
 				Old: "\t\tres.out = item.response\n", New: "\t\tres.out = item.response\n\t\tif len(res.out) > 0 {\n\t\t\tres.out[0] = '{'\n\t\t}\n"},
 		},
@@ -1178,52 +1182,117 @@ func c11SharedErrorKeepsItsChain(r *fw.Run) {
 }
 
 // c11LeaderContextErrorsRecognised (R10): err(r) != ctx_err(r') — a follower must never be failed with the context error
-// of another request. The shared error is classified by one helper (a function of package resolve taking the follower's
-// context and the shared error and answering with errors.Is against the context package's error values): when it answers
-// true the follower loads on its own instead of returning the error. A request's context can end in two ways, Canceled
-// and DeadlineExceeded; the helper has to recognise both, otherwise the leader's own deadline becomes the error of a
-// follower that has a later deadline or none.
+// of another request. A request's context ends by cancellation or by deadline, and the error value alone cannot tell the
+// leader's own deadline from a failure of the shared work (an HTTP client timeout is a DeadlineExceeded too). Both
+// single-flight layers therefore let the leader record the state of its OWN context in the shared record when it finishes
+// with an error, before the followers are woken; and a follower returns the shared error only after a test of that record
+// (when the leader was gone and the follower's context is alive, it does the work itself). Round 3 first demanded that
+// the classifying helper also recognise DeadlineExceeded; that repair contradicted an existing test (a follower must
+// receive FinishErr(DeadlineExceeded) of a leader whose context is alive) and was recorded as a known finding — the
+// record/test formulation satisfies both and replaced it.
 func c11LeaderContextErrorsRecognised(r *fw.Run) {
 	p := r.Prog
-	r.Rule("C11-R10", "the helper that tells a leader's own context error from a failure of the shared work recognises every way a request context ends: errors.Is against context.Canceled and against context.DeadlineExceeded")
-	n := 0
-	for _, fi := range p.Funcs("resolve") {
-		sig := fi.Obj.Type().(*types.Signature)
-		if sig.Recv() != nil || sig.Params().Len() != 2 || sig.Results().Len() != 1 {
-			continue
-		}
-		if !fw.TypeIs(sig.Params().At(0).Type(), "context", "Context") || sig.Params().At(1).Type().String() != "error" {
-			continue
-		}
-		if b, ok := sig.Results().At(0).Type().Underlying().(*types.Basic); !ok || b.Kind() != types.Bool {
-			continue
-		}
-		info := fi.Info()
-		seen := map[string]bool{}
-		fw.WalkAll(fi.Decl.Body, func(nd ast.Node) bool {
-			c, ok := nd.(*ast.CallExpr)
-			if !ok || len(c.Args) != 2 {
-				return true
+	r.Rule("C11-R10", "in both single-flight layers the leader records the state of its own context in the shared record when it finishes with an error, before the wake-up, and a follower returns the shared error only after a test of that record")
+	type layer struct {
+		name, recType, errField, doneField string
+		writers, readers               []string
+	}
+	layers := []layer{
+		{"subgraph", "SingleFlightItem", "err", "loaded", []string{"Loader.loadByContext"}, []string{"Loader.loadByContext"}},
+		{"inbound", "InflightRequest", "Err", "Done", []string{"InboundRequestSingleFlight.FinishErr"}, []string{"InboundRequestSingleFlight.GetOrCreate"}},
+	}
+	for _, ly := range layers {
+		// the record fields written from "<a context>.Err()" in a writer
+		record := map[*types.Var]bool{}
+		for _, wn := range ly.writers {
+			fi := p.Func("resolve", wn)
+			if fi == nil {
+				r.Error("C11-R10: %s not found", wn)
+				continue
 			}
-			// errors.Is of the standard library or of github.com/pkg/errors
-			if fn := fw.Callee(info, c); fn == nil || fn.Name() != "Is" || fn.Pkg() == nil || !(fn.Pkg().Path() == "errors" || strings.HasSuffix(fn.Pkg().Path(), "/errors")) {
-				return true
-			}
-			if sel, isSel := ast.Unparen(c.Args[1]).(*ast.SelectorExpr); isSel {
-				if v, isVar := info.Uses[sel.Sel].(*types.Var); isVar && v.Pkg() != nil && v.Pkg().Path() == "context" {
-					seen[v.Name()] = true
+			info := fi.Info()
+			in := fw.NewInterp(fi)
+			nErrWrites := 0
+			in.H = fw.Hooks{Node: func(nd ast.Node, st *fw.State) {
+				as, ok := nd.(*ast.AssignStmt)
+				if !ok || len(as.Lhs) != len(as.Rhs) {
+					return
 				}
-			}
-			return true
-		})
-		if len(seen) == 0 {
-			continue
+				for i, l := range as.Lhs {
+					fv, sel := fw.Field(info, l)
+					if fv == nil {
+						continue
+					}
+					if _, tn := fw.FieldOwner(info, sel); tn != ly.recType {
+						continue
+					}
+					mentionsCtxErr := false
+					fw.WalkAll(as.Rhs[i], func(n ast.Node) bool {
+						if c, isCall := n.(*ast.CallExpr); isCall {
+							if s2, isSel := ast.Unparen(c.Fun).(*ast.SelectorExpr); isSel && s2.Sel.Name == "Err" {
+								if tv, okT := info.Types[s2.X]; okT && fw.TypeIs(tv.Type, "context", "Context") {
+									mentionsCtxErr = true
+								}
+							}
+						}
+						return true
+					})
+					if mentionsCtxErr {
+						record[fv] = true
+						st.Set("recorded")
+					}
+					// the error is published: from here to the wake-up the record must be written too; check at function exit
+					if fv.Name() == ly.errField && in.Final() {
+						nErrWrites++
+					}
+				}
+			}, Exit: func(ret *ast.ReturnStmt, lit *ast.FuncLit, st *fw.State) {}}
+			end := in.Run(nil)
+			_ = end
+			r.Check(len(record) > 0, "C11-R10", ly.name+"/"+wn+"/leader-records-its-context-state", fi.Pos(), "the leader of the "+ly.name+" single flight records the state of its own context in the shared "+ly.recType+" where it publishes its error",
+				"the shared record carries the error but not whether the leader's own context had ended: a follower cannot tell the leader's deadline from a failure of the shared work and answers with the leader's context error — a follower with a later deadline (or none) fails because another client's deadline passed")
+			r.Expect("C11-R10", "writes of the shared error in "+wn, nErrWrites, 1)
 		}
-		n++
-		for _, name := range []string{"Canceled", "DeadlineExceeded"} {
-			r.Check(seen[name], "C11-R10", fi.Name()+"/recognises:"+name, fi.Pos(), fi.Name()+" tests the shared error against context."+name,
-				"a leader whose context ended with context."+name+" is not recognised as 'the leader's own end': the follower returns the leader's context error instead of loading on its own — a follower with a later deadline (or none) answers 'Failed to fetch from Subgraph' because another client's deadline passed")
+		for _, rn := range ly.readers {
+			fi := p.Func("resolve", rn)
+			if fi == nil {
+				r.Error("C11-R10: %s not found", rn)
+				continue
+			}
+			info := fi.Info()
+			n := 0
+			in := fw.NewInterp(fi)
+			in.H = fw.Hooks{
+				Cond: func(e ast.Expr, branch bool, st *fw.State) {
+					fw.WalkAll(e, func(m ast.Node) bool {
+						if sel, ok := m.(*ast.SelectorExpr); ok {
+							if fv, _ := fw.Field(info, sel); fv != nil && record[fv] {
+								st.Set("record-tested")
+							}
+						}
+						return true
+					})
+				},
+				Exit: func(ret *ast.ReturnStmt, lit *ast.FuncLit, st *fw.State) {
+					if lit != nil || ret == nil || !in.Final() {
+						return
+					}
+					for _, res := range ret.Results {
+						fv, sel := fw.Field(info, res)
+						if fv == nil || fv.Name() != ly.errField {
+							continue
+						}
+						if _, tn := fw.FieldOwner(info, sel); tn != ly.recType {
+							continue
+						}
+						n++
+						r.Check(st.Must("record-tested"), "C11-R10", ly.name+"/"+rn+"/follower-returns-shared-error-only-after-testing-the-record#"+itoa(n), p.Pos(ret.Pos()), "the follower returns the shared error only after a test of the leader's recorded context state",
+							"the follower hands the shared error on without asking whether the leader itself was gone: a leader whose own deadline passed fails a follower that has a later deadline or none")
+					}
+				},
+			}
+			in.Run(nil)
+			r.Expect("C11-R10", "returns of the shared error in "+rn, n, 1)
 		}
 	}
-	r.Expect("C11-R10", "helpers classifying a shared error against context errors", n, 1)
 }
